@@ -1,7 +1,7 @@
 (* Props/C04.v — property theorems only; proofs in Proofs/C04Binding.v. *)
 From Coq Require Import List NArith.
 From Cedar Require Import Lib.Bytes Lib.Sym gen.Consts Model.Frame Model.FrameSpec
-     Proofs.FrameBase Proofs.C02Prefix Proofs.C04Binding.
+     Proofs.FrameBase Proofs.C02Prefix Proofs.C04Binding Proofs.C04sitesModel.
 Import ListNotations.
 Local Open Scope N_scope.
 
@@ -119,3 +119,67 @@ Theorem C04_finalize_before_key_is_neutral :
   forall (s : stream) (k iv : bytes), set_key (finalize_digests s) k iv = set_key s k iv.
 Proof. exact set_key_after_finalize. Qed.
 Print Assumptions C04_finalize_before_key_is_neutral.
+
+(* ------------------------------------------------------------------------------------------
+   The premise that makes the theorems above be about cedar's handshakes, as obligations over
+   facts regenerated from /repo's source on every run (gen/FactsC04.v, harness/cmd/vh-c04 facts;
+   checkers and allow-lists with their reasons in Proofs/C04sites.v).
+   ------------------------------------------------------------------------------------------ *)
+
+(* Every call, anywhere in security/, server/, client/, client/sharedport/, ccb/ (and in message/
+   for the StreamInterface a Message wraps), of a method of a Stream is in the method table, and
+   what the table says it stands for is an operation of the model: a constructor of `cop` - the
+   type C04_binding quantifies over -, the key installation, or FinalizeDigests with nothing
+   after it. *)
+Theorem C04_every_handshake_call_is_modelled :
+  forall c, In c (FactsC04.stream_calls ++ FactsC04.iface_calls) ->
+    exists k, C04sites.lookup (snd c) = Some k /\ stands_for k.
+Proof. exact every_handshake_call_stands_for_a_model_operation. Qed.
+Print Assumptions C04_every_handshake_call_is_modelled.
+
+(* Package stream: a method the table models as a send reaches the transport only through
+   sendMessageWithEnd, one modelled as a receive only through ReceiveFrameWithEnd (never
+   ReceiveFrame), every other one reaches no transport I/O at all; every function that reads or
+   writes the transport feeds the digest of that direction before every success return (the one
+   tolerated exception, ReceiveFrame's zero-length branch, is unreachable from the table); only
+   readWithContext / writeWithContext touch the connection itself; the digest is updated only
+   under "this direction's digest is still running"; the hash states are never reset or replaced. *)
+Theorem C04_handshake_io_is_hashed :
+  (forall e, In e C04sites.method_table -> C04sites.reach_ok e = true) /\
+  (forall e, In e FactsC04.transport_io -> C04sites.tio_ok e = true) /\
+  (forall e, In e FactsC04.digest_guards -> C04sites.guards_ok e = true) /\
+  (forall e, In e FactsC04.digest_touch -> C04sites.touch_ok e = true) /\
+  (C04sites.required_stream_facts && C04sites.required_call_facts && C04sites.reasons_given)%bool = true.
+Proof. exact C04sites.handshake_io_is_hashed. Qed.
+Print Assumptions C04_handshake_io_is_hashed.
+
+(* The result of GetConnection() is used only to close, to ask addresses, or in the three
+   justified ways of C04sites.conn_use_allowed; direct I/O on a connection-like value occurs in
+   the handshake packages only where C04sites.raw_io_allowed says why it is not the peer
+   connection of a handshake; every Message is built over a *stream.Stream; no Stream is handed
+   to code outside the scanned packages. *)
+Theorem C04_raw_connection_unused_for_io :
+  (forall e, In e FactsC04.conn_uses -> C04sites.conn_use_ok e = true) /\
+  (forall e, In e FactsC04.raw_io -> C04sites.raw_io_ok e = true) /\
+  (forall e, In e FactsC04.iface_values -> C04sites.iface_value_ok e = true) /\
+  FactsC04.stream_escapes = [].
+Proof. exact C04sites.raw_connection_unused_for_io. Qed.
+Print Assumptions C04_raw_connection_unused_for_io.
+
+(* The digest state a handshake ends with is the one it started with: nothing outside package
+   stream builds a Stream except through NewStream, package security never creates one, a Stream
+   is stored only by the constructors listed, and FinalizeDigests is called only where no
+   stream-affecting call can follow it. *)
+Theorem C04_digest_state_not_replaced :
+  FactsC04.digest_ctor = [] /\
+  (forall e, In e FactsC04.new_streams -> C04sites.new_stream_ok e = true) /\
+  (forall e, In e FactsC04.stream_stores -> C04sites.stream_store_ok e = true) /\
+  (forall e, In e FactsC04.finalize_sites -> snd e = []).
+Proof. exact C04sites.digest_state_not_replaced. Qed.
+Print Assumptions C04_digest_state_not_replaced.
+
+(* non-vacuity: the lists are not empty and contain what the property is anchored in *)
+Example C04_facts_example :
+  (List.length FactsC04.stream_calls >= 20)%nat /\ (List.length FactsC04.iface_values >= 25)%nat /\
+  match FactsC04.stream_calls with c :: _ => C04sites.lookup (snd c) <> None | [] => False end.
+Proof. vm_compute. repeat split; try discriminate; repeat constructor. Qed.
